@@ -33,6 +33,7 @@ EXPLANATION = (
     "reference semantics; each handler's dataflow signature (which operand field flows to which write) equals "
     "reference/classical_semantics.json; the reported fault line is the counter read before execution."
     ' C04.M: the memory primitives (Arrays, RegisterGroup, SharedMemory) store exactly once what they are given and declare fresh arrays. C04.F: inside an executor method no state effect precedes an explicit raise/assert on any path (a fault leaves the state untouched). C04.Z: no truthiness test on an int-typed value.'
+    ' C04.Q: the in-use-set bookkeeping rules of C13.U evaluated under this property (qalloc / qfree bookkeeping). C04.K: memoisation keys cover the arguments.'
 )
 LEVEL_TEXT = (
     "Static analysis, partial: per-handler and per-instruction-class clauses (dispatch, PC-once, None guards, predicates, operand-role "
@@ -390,7 +391,7 @@ def all_signatures(ctx, table) -> Dict[str, List[str]]:
     return out
 
 
-def check_signatures(ctx, table):
+def check_signatures(ctx, table, rule="C04.S", only=None):
     repo = ctx.repo
     ex = executor(ctx)
     if not os.path.exists(REF):
@@ -398,9 +399,13 @@ def check_signatures(ctx, table):
     ref = json.load(open(REF))
     sigs = all_signatures(ctx, table)
     for mn, exp in sorted(ref["handler_signatures"].items()):
+        if only is not None and mn not in only:
+            continue
         got = sigs.get(mn)
-        ctx.check("C04.S", f"{mn}:signature", got == exp, f"{mn}: handler {table.get(mn)} has dataflow signature {got}; reference semantics {exp}", ex.loc(),
+        ctx.check(rule, f"{mn}:signature", got == exp, f"{mn}: handler {table.get(mn)} has dataflow signature {got}; reference semantics {exp}", ex.loc(),
                   sample={"mnemonic": mn, "signature": got})
+    if only is not None:
+        return
     # _initialize_array, _set_register, _get_register, _set_array_entry, _expand_array_part bodies
     helper_exp = ref["helpers"]
     for name, exp in sorted(helper_exp.items()):
@@ -859,17 +864,22 @@ def run(ctx):
     # "execution stops at that instruction": a fault must leave the state untouched (rule shared with C13)
     from . import c13
     c13.check_fault_atomicity(ctx, "C04.F")
+    # "qalloc and qfree bookkeeping": the in-use set is exactly the set of mapped physical qubits (rule shared with C13)
+    c13.check_used_set(ctx, "C04.Q")
     # 0 is an ordinary id / value / address: nothing int-valued may be tested by truthiness (nqsa/truth.py)
     from .. import truth
     truth.check(ctx, "C04.Z", ['netqasm.backend.executor', 'netqasm.sdk.shared_memory'])
+    # a value remembered for later calls is keyed by every argument it depends on (nqsa/memo.py)
+    from .. import memo
+    memo.check(ctx, "C04.K", ['netqasm.backend.executor', 'netqasm.sdk.shared_memory'])
 
 
 X = "netqasm/backend/executor.py"
 C = "netqasm/lang/instr/core.py"
 SEEDS = [
     dict(id="c04-qalloc-marks-before-check", file=X, expect="C04.F", construct="_allocate_physical_qubit",
-         old="        if unit_module[virtual_address] is None:\n            if physical_address is None:\n                physical_address = self._get_unused_physical_qubit()\n                self._used_physical_qubit_addresses.add(physical_address)\n            unit_module[virtual_address] = physical_address",
-         new="        if physical_address is None:\n            physical_address = self._get_unused_physical_qubit()\n        if unit_module[virtual_address] is None:\n            unit_module[virtual_address] = physical_address"),
+         old="        if unit_module[virtual_address] is None:\n            if physical_address is None:\n                physical_address = self._get_unused_physical_qubit()\n            self._used_physical_qubit_addresses.add(physical_address)\n            unit_module[virtual_address] = physical_address",
+         new="        if physical_address is None:\n            physical_address = self._get_unused_physical_qubit()\n        if unit_module[virtual_address] is None:\n            self._used_physical_qubit_addresses.add(physical_address)\n            unit_module[virtual_address] = physical_address"),
     dict(id="c04-store-writes-before-index-check", file=X, expect="C04.F", construct="_instr_array",
          old="        length = self._get_register(app_id, instr.size)\n", new="        length = self._get_register(app_id, instr.size)\n        self._set_register(app_id, instr.size, length)\n"),
     dict(id="c04-lea-no-pc", file=X, expect="C04.PC", construct="_instr_lea", old="    @inc_program_counter\n    def _instr_lea(", new="    def _instr_lea("),
